@@ -2,7 +2,7 @@
    program, and its agreement with the specification parser on every short text (the bound is in the statement).
    What is NOT here: a proof for texts of every length that the interpretation equals the specification parser on L
    (meta/C04.json, not_proved). *)
-From Coq Require Import List String ZArith NArith Bool.
+From Coq Require Import List String ZArith NArith Bool Lia.
 From GoMC Require Import Gen.Consts Gen.Scanner Model.C04_scan Model.C04_dsyntax Model.C04_dec Gen.Decoder.
 From GoMC Require Model.C04.
 Import ListNotations.
@@ -113,3 +113,31 @@ Definition scratch_local (prog : list gfunc) : bool :=
   && Nat.eqb (fold_right (fun f a => (inner_defers depth (snd (split_defers (g_body f))) + a)%nat) 0%nat prog) 0.
 Lemma decoder_scratch_local : scratch_local decoder_prog = true.
 Proof. vm_compute. reflexivity. Qed.
+
+(* ------------------------------------------------------------------ exhaustive sweeps over short texts (shared) *)
+Definition nopf (_ : list Z) (_ : Z) : option Z := None.
+Fixpoint zeqb (a b : list Z) : bool :=
+  match a, b with [], [] => true | x :: a', y :: b' => (x =? y) && zeqb a' b' | _, _ => false end.
+Lemma zeqb_eq a : forall b, zeqb a b = true -> a = b.
+Proof.
+  induction a as [|x a IH]; destruct b as [|y b]; simpl; intros H; try discriminate; [reflexivity|].
+  apply andb_true_iff in H. destruct H as [H1 H2]. apply Z.eqb_eq in H1. rewrite (IH b H2), H1. reflexivity.
+Qed.
+(* the interpretation ends in a payload or an error *)
+Definition total (pf : list Z -> Z -> option Z) (text : list Z) : bool :=
+  match decode_text pf decoder_prog text with DOk _ | DErr => true | _ => false end.
+(* depth-first: p on the (reversed) prefix rp and on every extension of it by up to k symbols of alpha *)
+Fixpoint checkp (p : list Z -> bool) (alpha : list Z) (k : nat) (rp : list Z) : bool :=
+  p (rev rp) && match k with O => true | S k' => forallb (fun c => checkp p alpha k' (c :: rp)) alpha end.
+Lemma checkp_sound p alpha k : forall rp, checkp p alpha k rp = true ->
+  forall ext, (List.length ext <= k)%nat -> Forall (fun c => In c alpha) ext -> p (rev rp ++ ext) = true.
+Proof.
+  induction k as [|k IH]; intros rp H ext L F; simpl in H; apply andb_true_iff in H; destruct H as [H1 H2].
+  - destruct ext; [rewrite app_nil_r; exact H1 | simpl in L; lia].
+  - destruct ext as [|c ext]; [rewrite app_nil_r; exact H1|].
+    inversion F; subst. rewrite forallb_forall in H2. specialize (H2 c H3).
+    specialize (IH (c :: rp) H2 ext ltac:(simpl in L; lia) H4). simpl in IH. rewrite <- app_assoc in IH. exact IH.
+Qed.
+Definition alpha1 : list Z := [123;125;91;93;58;44;59;34;39;92;49;97;66;32].
+Definition alpha2 : list Z := [91;93;44;59;45;49;50;98;115;76;66;73;32].
+Definition alpha3 : list Z := [49;46;45;43;102;68;100;91;93;44;32].
